@@ -1778,8 +1778,9 @@ func (e *CoreExtension) filterMerge(value interface{}, args ...interface{}) (int
 		// arguments need not have the key and value types of value
 		resultMap := make(map[string]interface{}, rv.Len())
 
-		// Copy original values
-		for _, key := range rv.MapKeys() {
+		// Copy original values, in sorted key order: two keys can have the same string form
+		// (the int 1 and the string "1" in a map[interface{}]T), and the one stored last wins
+		for _, key := range sortedMapKeys(rv) {
 			resultMap[mapKeyString(key)] = rv.MapIndex(key).Interface()
 		}
 
@@ -1787,7 +1788,7 @@ func (e *CoreExtension) filterMerge(value interface{}, args ...interface{}) (int
 		for _, arg := range args {
 			argRv := reflect.ValueOf(arg)
 			if argRv.Kind() == reflect.Map {
-				for _, key := range argRv.MapKeys() {
+				for _, key := range sortedMapKeys(argRv) {
 					resultMap[mapKeyString(key)] = argRv.MapIndex(key).Interface()
 				}
 			}
